@@ -1254,10 +1254,18 @@ def gen_case(rng, maxops):
     return dict(spec=spec, origin=origin, ops=ops, watcher=watcher)
 
 
+_GENERATED = []     # the cases of the running check (generate() remembers them) …
+_LINES = {}         # … and their model lines, made in one parallel pass when the first of them is asked for
+
+
 def generate(rng, tier):
     n, maxops = (400, 12) if tier == "quick" else (5000, 30)
+    del _GENERATED[:]
+    _LINES.clear()
     for _ in range(n):
-        yield gen_case(rng, maxops)
+        c = gen_case(rng, maxops)
+        _GENERATED.append(c)
+        yield c
 
 
 # ---------------------------------------------------------------------------------------
@@ -1615,9 +1623,32 @@ def run_impl(case):
     return r
 
 
-def model_lines(case):
+def _lines_worker(case):
     import sys
     import warnings
+    import logging
+    import sexp
     warnings.filterwarnings("ignore")
+    logging.disable(logging.CRITICAL)
     sys.unraisablehook = lambda *a: None
-    return run(case, True)["lines"]
+    return [sexp.dumps(x) for x in run(case, True)["lines"]]
+
+
+def model_lines(case):
+    """the lines for the model: the initial tree, then per op only (receiver, kind, mutator, effective|same) / hold / release
+    (the tree shape and the receiver ids are only known on the real font, so the case is run once more for them; the cases
+    of a check are run in parallel the first time one is asked for)"""
+    import json
+    import multiprocessing
+    key = json.dumps(case, sort_keys=True, default=str)
+    if key not in _LINES and len(_GENERATED) >= 32 and not _LINES:
+        nproc = max(1, min(16, os.cpu_count() or 1))
+        ctx = multiprocessing.get_context("fork")
+        with ctx.Pool(nproc) as pool:
+            res = pool.map(_lines_worker, _GENERATED, chunksize=max(1, len(_GENERATED) // (nproc * 8)))
+        for c, r in zip(_GENERATED, res):
+            _LINES[json.dumps(c, sort_keys=True, default=str)] = r
+    if key not in _LINES:
+        return [Atom(x) for x in _lines_worker(case)]
+    # (already encoded: an Atom is written out verbatim)
+    return [Atom(x) for x in _LINES[key]]
